@@ -104,6 +104,9 @@ def run(ctx):
             # whatever the seed (and small enough to be enumerated in full): passwords that begin with spaces, a keyboard walk at the
             # end of a password behind exactly one other character, double quotes inside and at the end of a terminal, a comma
             pws = ['x1qaz', '!qwer', 'rock"n"roll', 'abc"', '"', 'a,b', 'Summer19', 'x1qaz', 'tiger', 'Tiger', '12345', 'tiger12']
+            if i == 2:
+                # characters a terminal or a wrongly decoded file leaves in a password: DEL, C1 controls (not U+0085), a soft hyphen
+                pws += ['pass\x7fword7', 'admin\x9c42', '\x80x9', 'co\xadop1']
             enc = 'utf-8'
             if i == 4:
                 # ... cased symbols that are not letters in front of / behind letter runs, context strings in other capitalisations
@@ -134,8 +137,9 @@ def run(ctx):
             dist[k][v] = dist[k].get(v, 0) + 1
         # the training passwords are the ones of the generated list (not what the reader made of them): a reader that alters or drops
         # a valid password breaks the property as surely as a grammar that cannot derive it
-        from lib_trainer.trainer_file_input import check_valid
-        valid = [p for p in pws if check_valid(p)]
+        # (judged here, not by the reader's own filter: a password is a non-empty line of text - no C0 control character, none of
+        # the other line boundaries U+0085 / U+2028 / U+2029; everything else, DEL and the C1 controls too, is an ordinary character)
+        valid = [p for p in pws if p and not any(ord(ch) < 0x20 or ord(ch) in (0x85, 0x2028, 0x2029) for ch in p)]
         mw, _ = train_util.first_pass(valid)
         emitted = set()
         mass = 0.0
